@@ -3,7 +3,7 @@
 //! against the reference scope resolver.
 use crate::ana::ws::{Workspace, WsFile, WsPackage};
 use crate::core::{catch, panic_class, Layer, Report, Tier, Violation};
-use crate::gleam::ast::Module;
+use crate::gleam::ast::*;
 use crate::gleam::print::{print_module, Layout};
 use crate::gleam::scope::{Resolver, Target, UseInfo};
 use crate::gleam::scopegen::{self, contexts, Context, Ctx, INNER_SHAPES, N_SHAPES, POOL};
@@ -405,6 +405,8 @@ pub fn run(which: Which, tier: Tier) -> i32 {
     rep.layer(l);
     if which == Which::C18 {
         dot_layer(&mut rep);
+    } else {
+        namespace_layer(&mut rep);
     }
     rep.distinct_nontrivial = nontriv;
     rep.distinct_outcomes = 1 + rep.violations.iter().map(|v| v.class.clone()).collect::<BTreeSet<_>>().len() as u64;
@@ -413,6 +415,166 @@ pub fn run(which: Which, tier: Tier) -> i32 {
     rep.assumptions = vec!["the reference resolver implements Gleam's scoping rules for the supported core (DESIGN 4.3); labels in function calls, record field access and alias spellings are outside the core (safety half only)".into()];
     rep.guard(nontriv > 1000, "occurrences with competing declarations");
     rep.finish()
+}
+
+
+/// Type / constructor namespace family: capitalised names from {A, B} used as type names,
+/// constructor names and alias names in the exporting module and in the importing one, under
+/// every import form, with value, pattern, annotation and qualified uses of both spellings.
+pub fn namespace_programs() -> Vec<(String, Vec<(String, Module)>)> {
+    #[derive(Clone, Copy, Debug)]
+    enum D {
+        Adt(usize, usize),
+        Alias(usize),
+    }
+    const N: [&str; 2] = ["A", "B"];
+    let int = || Type::Named { module: None, name: "Int".into(), args: vec![] };
+    // layouts of the exporting module: 1-2 type-level declarations, distinct type names, distinct constructor names
+    let mut singles = vec![];
+    for t in 0..2 {
+        singles.push(D::Alias(t));
+        for c in 0..2 {
+            singles.push(D::Adt(t, c));
+        }
+    }
+    let tn = |d: &D| match d {
+        D::Adt(t, _) | D::Alias(t) => *t,
+    };
+    let cn = |d: &D| match d {
+        D::Adt(_, c) => Some(*c),
+        D::Alias(_) => None,
+    };
+    let mut layouts: Vec<Vec<D>> = singles.iter().map(|d| vec![*d]).collect();
+    for a in &singles {
+        for b in &singles {
+            if tn(a) != tn(b) && (cn(a).is_none() || cn(a) != cn(b)) {
+                layouts.push(vec![*a, *b]);
+            }
+        }
+    }
+    // import forms: (is_type, name, alias) lists
+    let mut imports: Vec<Vec<(bool, usize, Option<usize>)>> = vec![vec![]];
+    for n in 0..2 {
+        let o = 1 - n;
+        imports.push(vec![(false, n, None)]);
+        imports.push(vec![(true, n, None)]);
+        imports.push(vec![(false, n, None), (true, n, None)]);
+        imports.push(vec![(true, n, None), (false, n, None)]);
+        imports.push(vec![(false, n, Some(o))]);
+        imports.push(vec![(true, n, Some(o))]);
+        imports.push(vec![(false, n, Some(o)), (true, n, None)]);
+        imports.push(vec![(false, n, None), (true, o, None)]);
+    }
+    // local type in the importing module: none or `type L { C }`
+    let mut locals: Vec<Option<(usize, usize)>> = vec![None];
+    for l in 0..2 {
+        for c in 0..2 {
+            locals.push(Some((l, c)));
+        }
+    }
+    let mut out = vec![];
+    for (li, layout) in layouts.iter().enumerate() {
+        for (ii, imp) in imports.iter().enumerate() {
+            for shadow in 0..3u8 {
+            'l: for (ci, local) in locals.iter().enumerate() {
+                // Gleam rejects an unqualified import whose local name is also declared locally (same namespace)
+                if let Some((l, c)) = local {
+                    for (is_type, n, alias) in imp {
+                        let ln = alias.unwrap_or(*n);
+                        if (*is_type && ln == *l) || (!*is_type && ln == *c) {
+                            continue 'l;
+                        }
+                    }
+                }
+                // two imports binding the same local name in one namespace are rejected as well
+                for (i, a) in imp.iter().enumerate() {
+                    for b in &imp[i + 1..] {
+                        if a.0 == b.0 && a.2.unwrap_or(a.1) == b.2.unwrap_or(b.1) {
+                            continue 'l;
+                        }
+                    }
+                }
+                let mut c = Ctx::new(vec![]);
+                let mut m_items = vec![];
+                for d in layout {
+                    match d {
+                        D::Adt(t, k) => m_items.push(Item::TypeDef { public: true, opaque: false, name: c.mark(N[*t]), params: vec![], variants: vec![Variant { name: c.mark(N[*k]), fields: vec![] }] }),
+                        D::Alias(t) => m_items.push(Item::Alias { public: true, name: c.mark(N[*t]), params: vec![], ty: int() }),
+                    }
+                }
+                let mut items = vec![Item::Import {
+                    path: vec!["m".into()],
+                    alias: None,
+                    unqualified: imp.iter().map(|(is_type, n, alias)| Unq { is_type: *is_type, name: c.mark(N[*n]), alias: alias.map(|a| c.mark(N[a])) }).collect(),
+                }];
+                if let Some((l, k)) = local {
+                    items.push(Item::TypeDef { public: false, opaque: false, name: c.mark(N[*l]), params: vec![], variants: vec![Variant { name: c.mark(N[*k]), fields: vec![] }] });
+                }
+                let tyn = |c: &mut Ctx, module: bool, n: usize| Type::Named { module: if module { Some(c.mark("m")) } else { None }, name: c.mark(N[n]), args: vec![] };
+                let mut params = vec![
+                    Param { label: None, name: c.mark("p"), ty: Some(tyn(&mut c, false, 0)) },
+                    Param { label: None, name: c.mark("q"), ty: Some(tyn(&mut c, false, 1)) },
+                    Param { label: None, name: c.mark("r"), ty: Some(tyn(&mut c, true, 0)) },
+                    Param { label: None, name: c.mark("s"), ty: Some(tyn(&mut c, true, 1)) },
+                ];
+                // a local value spelled like the module accessor: shadows it in expressions only
+                if shadow == 1 {
+                    params.push(Param { label: None, name: c.mark("m"), ty: None });
+                }
+                // ... or a function of that name
+                if shadow == 2 {
+                    items.push(Item::Fn { public: false, external: false, target: None, name: c.mark("m"), params: vec![], ret: None, body: Some(vec![Stmt::Expr(Expr::Int("0".into()))]) });
+                }
+                let mut body = vec![];
+                for n in 0..2 {
+                    body.push(Stmt::Expr(Expr::Ctor(c.mark(N[n]))));
+                    // `m.A` with a local `m` is a (necessarily ill-typed) record access in Gleam; glas
+                    // falls back to the module there by design, so the shadowed variant only keeps the
+                    // type and pattern positions, where module names are a namespace of their own
+                    if shadow == 0 {
+                        body.push(Stmt::Expr(Expr::Field(Box::new(Expr::Var(c.mark("m"))), c.mark(N[n]))));
+                    }
+                }
+                let clause = |p: Pattern| Clause { alts: vec![vec![p]], guard: None, body: Expr::Int("0".into()) };
+                let mut clauses = vec![];
+                for n in 0..2 {
+                    clauses.push(clause(Pattern::Ctor { module: None, name: c.mark(N[n]), args: vec![], spread: false }));
+                    clauses.push(clause(Pattern::Ctor { module: Some(c.mark("m")), name: c.mark(N[n]), args: vec![], spread: false }));
+                }
+                clauses.push(clause(Pattern::Discard("_".into())));
+                body.push(Stmt::Expr(Expr::Case(vec![Expr::Var(c.mark("p"))], clauses)));
+                items.push(Item::Fn { public: true, external: false, target: None, name: c.mark("main"), params, ret: None, body: Some(body) });
+                out.push((format!("ns:layout{li}|import{ii}|local{ci}|shadow{shadow}"), vec![("main".to_string(), Module { items }), ("m".to_string(), Module { items: m_items })]));
+            }
+            }
+        }
+    }
+    out
+}
+
+fn namespace_layer(rep: &mut Report) {
+    let progs = namespace_programs();
+    let mut l = Layer { name: "type-constructor-namespaces".into(), exhaustive: true, ..Default::default() };
+    let res: Vec<(u64, Vec<Violation>)> = progs
+        .par_iter()
+        .map(|(name, mods)| match catch(|| eval_program(Which::C05, mods, Layout::Space)) {
+            Ok((n, _, fails)) => {
+                let texts: Vec<String> = mods.iter().map(|(_, m)| print_module(m, Layout::Space).text).collect();
+                (n, fails.into_iter().take(4).map(|(class, key, detail)| Violation { class, key: format!("namespace|{key}"), witness: json!({"namespace_program": name, "main": texts[0], "m": texts[1]}), detail: format!("{detail}\n      main.gleam: {}\n      m.gleam: {}", texts[0].trim(), texts[1].trim()) }).collect())
+            }
+            Err(m) => (0, vec![Violation { class: "panic".into(), key: panic_class(&m), witness: json!({"namespace_program": name}), detail: format!("evaluation panicked: {m}") }]),
+        })
+        .collect();
+    for (n, v) in res {
+        l.states += 1;
+        l.executions += 1;
+        l.transitions += n;
+        for x in v {
+            rep.violation(x);
+        }
+    }
+    l.bound = format!("{} programs: every layout of 1-2 public type-level declarations in the exporting module (custom type with one constructor / alias; type, alias and constructor names from {{A, B}}, all orders) x 17 import forms (plain, `type`, both in either order, `as`, mixed) x no local type or a local `type L {{ C }}` (names from {{A, B}}; combinations Gleam itself rejects as duplicate are skipped) x {{nothing, a parameter, a function}} spelled like the module accessor - each with value, pattern, annotation and module-qualified uses of both spellings", progs.len());
+    rep.layer(l);
 }
 
 /// Completions after `module.` and `value.` (trigger character '.').
@@ -460,6 +622,10 @@ pub fn replay(which: Which, w: &Value) -> Vec<String> {
         let mut rep = Report::new("C18", Tier::Quick);
         dot_layer(&mut rep);
         return rep.violations.iter().filter(|v| Some(v.key.as_str()) == w["case"].as_str()).map(|v| v.detail.clone()).collect();
+    }
+    if let Some(name) = w["namespace_program"].as_str() {
+        let Some((_, mods)) = namespace_programs().into_iter().find(|(n, _)| n == name) else { return vec!["unknown namespace program".into()] };
+        return eval_program(which, &mods, Layout::Space).2.into_iter().map(|(c, _, d)| format!("{c}: {d}")).collect();
     }
     // rebuild the program from (context, skeleton, assignment)
     let ctxs = contexts();
